@@ -479,7 +479,7 @@ pub(crate) fn run(replay: Option<&str>) -> Report {
         return rep;
     }
     let thorough = rep.thorough();
-    let depth = if thorough { 8 } else { 6 };
+    let depth = if thorough { 8 } else { 7 };
     rep.rule = format!("explicit-state BFS (depth {depth}) over peer-established(any subset of the configured GR families) / End-of-RIB / peer-withdrawn / timer events interleaved with route inserts/removes, on the real RestartingDeferral driven through the daemon's own glue (process_effects, process_restarting_outputs, timer handler) with a 2-shard TableManager observed by a registered neighbour channel; reference = pending-set model from the statement; non-trivial = distinct canonical (machine, RIB, announcement counts) state");
     for m in models(thorough) {
         let cfg = BfsCfg { max_depth: depth, max_secs: if thorough { 1200 } else { 40 }, ..Default::default() };
